@@ -7,7 +7,9 @@
 From Coq Require Import List Arith Bool.
 Import ListNotations.
 
-Inductive instr := IExec (op : nat) (is_start : bool) | IFin (op : nat).
+(* IAbandon: `AbandonOperator` (commit 131551599): finalize an operator upstream of an exhausted one
+   without draining it. *)
+Inductive instr := IExec (op : nat) (is_start : bool) | IFin (op : nat) | IAbandon (op : nat).
 
 (* PollExecute / PollFinalize *)
 Inductive pexec := XReady | XPending | XNeedsMore | XHasMore | XExhausted.
@@ -22,19 +24,22 @@ Record poll := { on_exec : res pexec; on_fin : res pfin }.
 Inductive errk := EOperator | ELastHasMore | ELastExhausted | ELastNeedsDrain.
 (* StackControlFlow, plus the two ways pop_next does not return a control flow *)
 Inductive control := Continue | Finished | Pending | Error (e : errk) | Panic.
-(* which Effects callback was invoked by this pop_next *)
+(* which Effects callback was invoked by this pop_next (FinalizeOperator and AbandonOperator both
+   call handle_finalize: CFin) *)
 Inductive call := CNone | CExec (op : nat) | CFin (op : nat).
 
-Record stack := { nops : nat; instrs : list instr }.
+(* ntf = next_to_finalize: index of the first operator that has not been finalized yet *)
+Record stack := { nops : nat; instrs : list instr; ntf : nat }.
 
 (* ExecutionStack::new: assert_ne!(0, num_operators) *)
 Definition new (n : nat) : option stack :=
-  if n =? 0 then None else Some {| nops := n; instrs := [IExec 0 true] |}.
+  if n =? 0 then None else Some {| nops := n; instrs := [IExec 0 true]; ntf := 1 |}.
 
 (* operator_idx == self.num_operators - 1 *)
 Definition is_last (s : stack) (op : nat) : bool := op =? nops s - 1.
 
-Definition with_instrs (s : stack) (l : list instr) : stack := {| nops := nops s; instrs := l |}.
+Definition with_instrs (s : stack) (l : list instr) : stack := {| nops := nops s; instrs := l; ntf := ntf s |}.
+Definition with_both (s : stack) (l : list instr) (f : nat) : stack := {| nops := nops s; instrs := l; ntf := f |}.
 
 Definition pop_next (s : stack) (p : poll) : stack * control * call :=
   match instrs s with
@@ -54,19 +59,30 @@ Definition pop_next (s : stack) (p : poll) : stack * control * call :=
           else (with_instrs s (IExec (S op) false :: r1), Continue, CExec op)
       | ROk XExhausted =>
           if is_last s op then (with_instrs s [], Error ELastExhausted, CExec op)
-          else (with_instrs s [IExec (S op) false; IFin (S op)], Continue, CExec op)
+          else
+            (* push Fin(op+1); push Abandon j for j in (ntf..op).rev() (lowest j ends on top);
+               ntf = max(ntf, op); push Exec(op+1) on top *)
+            (with_both s (IExec (S op) false :: map IAbandon (seq (ntf s) (op - ntf s)) ++ [IFin (S op)])
+                       (Nat.max (ntf s) op), Continue, CExec op)
+      end
+  | IAbandon op :: rest =>
+      match on_fin p with
+      | RErr => (with_instrs s rest, Error EOperator, CFin op)
+      | ROk FFinalized | ROk FNeedsDrain => (with_instrs s rest, Continue, CFin op)
+      | ROk FPending => (with_instrs s (IAbandon op :: rest), Pending, CFin op)
       end
   | IFin op :: rest =>
       if op =? 0 then (with_instrs s rest, Panic, CNone)   (* assert_ne!(0, operator_idx) *)
       else
       match on_fin p with
       | RErr => (with_instrs s rest, Error EOperator, CFin op)
+      (* if !Pending { next_to_finalize = max(next_to_finalize, op + 1) } happens before the match *)
       | ROk FFinalized =>
-          if is_last s op then (with_instrs s rest, Finished, CFin op)
-          else (with_instrs s (IFin (S op) :: rest), Continue, CFin op)
+          if is_last s op then (with_both s rest (Nat.max (ntf s) (S op)), Finished, CFin op)
+          else (with_both s (IFin (S op) :: rest) (Nat.max (ntf s) (S op)), Continue, CFin op)
       | ROk FNeedsDrain =>
-          if is_last s op then (with_instrs s rest, Error ELastNeedsDrain, CFin op)
-          else (with_instrs s (IExec op true :: rest), Continue, CFin op)
+          if is_last s op then (with_both s rest (Nat.max (ntf s) (S op)), Error ELastNeedsDrain, CFin op)
+          else (with_both s (IExec op true :: rest) (Nat.max (ntf s) (S op)), Continue, CFin op)
       | ROk FPending => (with_instrs s (IFin op :: rest), Pending, CFin op)
       end
   end.
